@@ -5,7 +5,7 @@ import json
 import os
 
 VERIF = os.path.dirname(os.path.dirname(os.path.abspath(__file__)))
-TOOL_NOTE = ('trusts the tool contract T0-T7 (the real xmlsec1 is absent; harness/standin/xmlsec1 is an '
+TOOL_NOTE = ('trusts the tool contract T0-T8 (the real xmlsec1 is absent; harness/standin/xmlsec1 is an '
              'executable model of it, itself checked against TLC-computed tool verdicts), the RSA/3DES/AES '
              'primitives of `cryptography`, and the concretisation templates (guarded by control twins)')
 
@@ -273,7 +273,7 @@ def main():
                                'tree; recorded executions handed back to TLC'},
             {'name': 'xmlsec1-standin', 'path': 'harness/standin/xmlsec1',
              'serves_properties': [x for x in served if x in ('C01', 'C02', 'C03', 'C08', 'C10', 'C16', 'C17', 'C20')],
-             'kind_free_text': 'executable model of the absent external tool (contract T0-T7)'},
+             'kind_free_text': 'executable model of the absent external tool (contract T0-T8)'},
         ],
         'checks': checks,
         'not_applicable': na,
